@@ -72,3 +72,147 @@ fn c28_get_list_shape() {
     let (v, s, b) = get_list(Value::Map(Default::default()));
     assert!(v.is_empty() && s.is_none() && !b, "empty map is the empty list");
 }
+
+// ---- K-snippet part (C28): separator / bracket selection of append and
+// join, list.index, zip's length, list.separator.  The Sass functions are
+// closures inside `create_module`; the statement ranges below are cut out of
+// /repo's current source on every run (tools/extract.py) and wrapped in
+// functions of their free variables; argument fetches (`s.get…`) are
+// replaced by parameters (listed substitutions). ----
+
+//@range file=rsass/src/sass/functions/list.rs fn=create_module from="let sep = s\n                .get_map(name!(separator), check_separator)?\n                .or(sep1)" until="list1.append(&mut list2);"
+//@  header: fn snippet_join_sep(explicit: Option<ListSeparator>, sep1: Option<ListSeparator>, sep2: Option<ListSeparator>) -> ListSeparator
+//@  subst: s\n                .get_map(name!(separator), check_separator)? => explicit
+//@  tail: sep
+//@end
+
+//@range file=rsass/src/sass/functions/list.rs fn=create_module from="let bra = match s.get(name!(bracketed))? {" until="Ok(Value::List(list1, Some(sep), bra))"
+//@  header: fn snippet_join_bracketed(bracketed: Value, bra1: bool) -> bool
+//@  subst: s.get(name!(bracketed))? => bracketed
+//@  tail: bra
+//@end
+
+//@range file=rsass/src/sass/functions/list.rs fn=create_module from="let sep = s\n            .get_map(name!(separator), check_separator)?\n            .or(sep)" until="list.push(s.get(name!(val))?);"
+//@  header: fn snippet_append_sep(explicit: Option<ListSeparator>, sep: Option<ListSeparator>) -> ListSeparator
+//@  subst: s\n            .get_map(name!(separator), check_separator)? => explicit
+//@  tail: sep
+//@end
+
+//@range file=rsass/src/sass/functions/list.rs fn=create_module from="let len = lists.iter().map(Vec::len).min().unwrap_or(0);" until="let result = (0..len)"
+//@  header: fn snippet_zip_len(lists: &Vec<Vec<u8>>) -> usize
+//@  tail: len
+//@end
+
+fn any_sep() -> Option<ListSeparator> {
+    match kani::any::<u8>() % 4 {
+        0 => None,
+        1 => Some(ListSeparator::Space),
+        2 => Some(ListSeparator::Comma),
+        _ => Some(ListSeparator::Slash),
+    }
+}
+
+/// C28: join takes the separator from the explicit argument, else from the
+/// first list that has one, else space.  All 4 x 4 x 4 combinations.
+#[kani::proof]
+fn c28_join_separator_choice() {
+    let (e, s1, s2) = (any_sep(), any_sep(), any_sep());
+    let r = snippet_join_sep(e, s1, s2);
+    let want = match (e, s1, s2) {
+        (Some(x), _, _) => x,
+        (None, Some(x), _) => x,
+        (None, None, Some(x)) => x,
+        (None, None, None) => ListSeparator::Space,
+    };
+    assert!(r == want, "join: explicit separator, else the first list that has one, else space");
+}
+/// C28: append takes the separator from the explicit argument, else from
+/// the list, else space.
+#[kani::proof]
+fn c28_append_separator_choice() {
+    let (e, s1) = (any_sep(), any_sep());
+    let r = snippet_append_sep(e, s1);
+    let want = match (e, s1) {
+        (Some(x), _) => x,
+        (None, Some(x)) => x,
+        (None, None) => ListSeparator::Space,
+    };
+    assert!(r == want, "append: explicit separator, else the list's, else space");
+}
+/// C28: join takes the brackets from the explicit argument (by truthiness),
+/// or from the first list when it is `auto`.
+#[kani::proof]
+#[kani::unwind(6)]
+fn c28_join_bracketed_choice() {
+    let bra1: bool = kani::any();
+    let auto = Value::Literal(crate::css::CssString::new(String::from("auto"), crate::value::Quotes::None));
+    assert!(snippet_join_bracketed(auto, bra1) == bra1, "join: bracketed auto takes the first list's brackets");
+    assert!(snippet_join_bracketed(Value::True, bra1), "join: bracketed true");
+    assert!(!snippet_join_bracketed(Value::False, bra1), "join: bracketed false");
+    assert!(!snippet_join_bracketed(Value::Null, bra1), "join: bracketed null is falsey");
+}
+/// C28: zip truncates to the shortest list (0 lists: length 0).
+#[kani::proof]
+#[kani::unwind(5)]
+fn c28_zip_truncates_to_shortest() {
+    let (a, b, c): (usize, usize, usize) = (kani::any(), kani::any(), kani::any());
+    kani::assume(a <= 3 && b <= 3 && c <= 3);
+    let lists = vec![vec![0u8; a], vec![0u8; b], vec![0u8; c]];
+    let r = snippet_zip_len(&lists);
+    assert!(r <= a && r <= b && r <= c && (r == a || r == b || r == c), "zip: length of the shortest list");
+    assert!(snippet_zip_len(&Vec::new()) == 0, "zip of nothing is empty");
+}
+
+//@range file=rsass/src/sass/functions/list.rs fn=create_module from="let sep = match s.get(name!(list))? {" until="Ok(sep.into())"
+//@  header: fn snippet_separator(list: Value) -> &'static str
+//@  subst: s.get(name!(list))? => list
+//@  tail: sep
+//@end
+
+//@range file=rsass/src/sass/functions/list.rs fn=create_module from="for (i, v) in v.iter().enumerate() {" until="\n        }\n"
+//@  header: fn snippet_list_index(v: Vec<Value>, value: Value) -> Result<Value, CallError>
+//@end
+
+/// C28: list.separator — comma / slash / space; maps and argument lists act
+/// as comma lists, an empty map and every non-list as a space list.
+#[kani::proof]
+#[kani::unwind(4)]
+fn c28_separator_name() {
+    let b: bool = kani::any();
+    assert!(snippet_separator(Value::List(vec![], Some(ListSeparator::Comma), b)) == "comma");
+    assert!(snippet_separator(Value::List(vec![], Some(ListSeparator::Slash), b)) == "slash");
+    assert!(snippet_separator(Value::List(vec![], Some(ListSeparator::Space), b)) == "space");
+    assert!(snippet_separator(Value::List(vec![], None, b)) == "space");
+    assert!(snippet_separator(Value::Map(Default::default())) == "space", "an empty map is an empty (space) list");
+    assert!(snippet_separator(Value::True) == "space", "a single value is a space list");
+    assert!(snippet_separator(Value::Null) == "space");
+}
+#[kani::proof]
+#[kani::unwind(4)]
+fn c28_separator_name_of_map() {
+    let m = crate::css::ValueMap::singleton(Value::True, Value::Null);
+    assert!(snippet_separator(Value::Map(m)) == "comma", "a map acts as a comma list of pairs");
+}
+
+fn pos_of(r: Result<Value, CallError>) -> Option<i64> {
+    match r {
+        Ok(Value::Null) => None,
+        Ok(Value::Numeric(n, _)) => n.value.into_integer().ok(),
+        _ => {
+            assert!(false, "list.index returns a number or null");
+            None
+        }
+    }
+}
+/// C28: list.index gives the first 1-based position of an `==` element, or
+/// null.
+#[kani::proof]
+#[kani::unwind(5)]
+fn c28_index_first_position() {
+    let l = || vec![Value::False, Value::Null, Value::True, Value::Null];
+    assert!(pos_of(snippet_list_index(l(), Value::False)) == Some(1), "index: first element is position 1");
+    assert!(pos_of(snippet_list_index(l(), Value::Null)) == Some(2), "index: FIRST position of an == element");
+    assert!(pos_of(snippet_list_index(l(), Value::True)) == Some(3));
+    assert!(pos_of(snippet_list_index(l(), Value::Bang(String::new()))) == None, "index: null when absent");
+    assert!(pos_of(snippet_list_index(Vec::new(), Value::True)) == None);
+}
